@@ -113,6 +113,18 @@ func genC18(seed int64, tier string) *Scenario {
 		sc.Actors = append(sc.Actors, a)
 	}
 	if rng.Intn(3) == 0 {
+		// somebody keeps listing the services, each time when a deploy or a remove
+		// is about to change the routing table
+		a := ActorSpec{Name: "lister"}
+		for i := 0; i < 3+rng.Intn(4); i++ {
+			o := Op{Kind: "list"}
+			alignOp(rng, &o, []string{"deploy.beforeUpdate", "deploy.beforeInstall", "router.install", "op.remove", "op.deploy"}, 8)
+			o.Delay = 300 * time.Millisecond
+			a.Ops = append(a.Ops, o)
+		}
+		sc.Actors = append(sc.Actors, a)
+	}
+	if rng.Intn(3) == 0 {
 		// rollout churn: the split of a live rollout is changed again and again
 		// while cookie-bearing requests are evaluated against it
 		setup.Ops = append(setup.Ops[:3:3], append([]Op{
